@@ -225,6 +225,7 @@ def record(res, tier, tr):
     open(tr + ".events", "w").close()
     n = 30 if tier == "quick" else 500
     rnd = random.Random(seed() + 16)
+    rnd2 = random.Random(seed() + 1617)
     wd = cli.Workdir("c16")
     i = 0
     fmts = ["plain", "json", "yaml", "junit"]
@@ -235,8 +236,8 @@ def record(res, tier, tr):
             clitrace.add_refs(pairs[0::2])
             # every fifth rules file has a rule called `default`
             clitrace.name_default(pairs[1::3], bare=True)
-            if ci == 0:
-                pairs = typed_pairs() + pairs
+            if ci == 2:
+                pairs = pairs + typed_pairs()
             for k, c in enumerate(pairs):
                 names = sorted({r["n"] for r in c["prog"]["rules"]})
                 ncases = rnd.choice([1, 2, 2, 3, 3, 4])
@@ -276,11 +277,20 @@ def record(res, tier, tr):
                     actual = {}
                     for nm_, st_ in (vres[q]["rules"] if truthful else []):
                         actual.setdefault(nm_, st_)
+                    # a name defined several times whose definitions come out differently: expect SKIP
+                    # if one of them is SKIP (the expectation is met only when every definition is SKIP)
+                    multi = {}
+                    for nm_, st_ in vres[q]["rules"]:
+                        multi.setdefault(nm_, set()).add(st_)
                     for nm in names:
                         if truthful and nm in actual:
                             exp.append([nm, actual[nm]])
-                        elif rnd.random() < 0.75:
-                            exp.append([nm, rnd.choice(STAT)])
+                        else:
+                            pick = rnd.choice(STAT) if rnd.random() < 0.75 else None
+                            if len(multi.get(nm, ())) > 1 and rnd2.random() < 0.6:
+                                pick = "SKIP" if "SKIP" in multi[nm] else sorted(multi[nm])[0]
+                            if pick:
+                                exp.append([nm, pick])
                     if rnd.random() < 0.2 and not truthful:
                         exp.append(["no_such_rule", "PASS"])
                     cases.append({"doc": src["doc"], "text": src["text"], "exp": exp, "v": vres[q]})
